@@ -192,6 +192,7 @@ func (sb *seqbag) AppendSeqIdentifier(identifier string, right bool) {
 				seq.name = identifier + seq.name
 			}
 		}
+		sb.reindex()
 	}
 }
 
@@ -285,12 +286,25 @@ func (sb *seqbag) CleanNames(namemap map[string]string) {
 			namemap[old] = seq.name
 		}
 	}
+	sb.reindex()
 }
 
 // Removes all the sequences from the seqbag
 func (sb *seqbag) Clear() {
 	sb.seqmap = make(map[string]*seq)
 	sb.seqs = make([]*seq, 0, 100)
+}
+
+// reindex rebuilds the name index from the sequences, after sequence
+// names have been modified in place. If several sequences have the same
+// name, the first one is indexed.
+func (sb *seqbag) reindex() {
+	sb.seqmap = make(map[string]*seq, len(sb.seqs))
+	for _, seq := range sb.seqs {
+		if _, ok := sb.seqmap[seq.name]; !ok {
+			sb.seqmap[seq.name] = seq
+		}
+	}
 }
 
 func (sb *seqbag) CloneSeqBag() (SeqBag, error) {
@@ -808,6 +822,7 @@ func (sb *seqbag) Rename(namemap map[string]string) {
 		// 	io.PrintMessage("Sequence " + a.seqs[seq].name + " not present in the map file")
 		// }
 	}
+	sb.reindex()
 }
 
 // Shuffle the order of the sequences in the alignment
@@ -835,6 +850,7 @@ func (sb *seqbag) RenameRegexp(regex, replace string, namemap map[string]string)
 		namemap[sb.seqs[seq].name] = newname
 		sb.seqs[seq].name = newname
 	}
+	sb.reindex()
 	return nil
 }
 
@@ -1132,6 +1148,7 @@ func (sb *seqbag) TrimNamesAuto(namemap map[string]string, curid *int) (err erro
 		}
 		seq.name = newname
 	}
+	sb.reindex()
 	return
 }
 
